@@ -15,6 +15,15 @@ MAX_REPLAYS = int(os.environ.get('VERIF_MAX_REPLAYS', '3'))
 NCPU = int(os.environ.get('VERIF_JOBS', str(os.cpu_count() or 8)))
 
 
+def copy_lock(dst_dir):
+    """copy the repository's Cargo.lock (untracked in /repo, so absent from git snapshots) next to a scratch Cargo.toml"""
+    for cand in (os.path.join(REPO, 'Cargo.lock'), '/repo/Cargo.lock'):
+        if os.path.exists(cand):
+            shutil.copy(cand, os.path.join(dst_dir, 'Cargo.lock'))
+            return True
+    return False
+
+
 class Harness:
     def __init__(self, name, unwind=None, covers=(), stubs=(), kind='assert', timeout=None,
                  solver=None):
@@ -136,7 +145,7 @@ def write_crate(d, modules, crate_name, features=None, lib_attrs='', extra_files
         feat = ', default-features = false, features = [' + ', '.join(f'"{f}"' for f in features) + ']'
     with open(os.path.join(d, 'Cargo.toml'), 'w') as f:
         f.write(CARGO_TOML.format(name=crate_name, repo=REPO, features=feat))
-    shutil.copy(os.path.join(REPO, 'Cargo.lock'), os.path.join(d, 'Cargo.lock'))
+    copy_lock(d)
     shutil.copy(os.path.join(VERIF, 'vk', 'support.rs'), os.path.join(d, 'src', 'support.rs'))
     lib = FEATURES + lib_attrs + '#![allow(dead_code, unused_imports, unused_macros)]\npub mod support;\n'
     disp = 'pub fn dispatch(name: &str) {\n    match name {\n'
